@@ -238,6 +238,10 @@ def run_check(pid, tier, seed, replay=None):
             return 1
         return 0
 
+    # fresh directory for the violations of this run
+    import shutil
+    shutil.rmtree(os.path.join(VERIF, "found", pid), ignore_errors=True)
+
     # 1. known findings: which are live?
     flags = set()
     live = []
